@@ -137,6 +137,7 @@ class C06(Check):
         if os.environ.get("C06_LIMIT_CFGS"):
             cfgs = cfgs[::int(os.environ["C06_LIMIT_CFGS"])]
         short = list(fileh.tokens_upto(ALPHABET, n_all))
+        short2 = list(fileh.tokens_upto(ALPHABET, 2))
         for ci, cfg in enumerate(cfgs):
             for tftp in (False, True):
                 seen = set()
@@ -146,7 +147,7 @@ class C06(Check):
                         return None
                     seen.add(u)
                     return {"tftp": tftp, "cfg": cfg, "uri": u}
-                for u in short:
+                for u in (short if (tier == "quick" or ci % 4 == 0) else short2):
                     c = emit(u)
                     if c:
                         yield c
@@ -156,14 +157,14 @@ class C06(Check):
                     if c:
                         yield c
                 # every one-token edit of some fitting requests (a rotating choice in the quick tier)
-                nb = 1 if tier == "quick" else 8
+                nb = 1 if tier == "quick" else 4
                 for bi in range(nb):
                     toks = tokenize(bases[(ci * 7 + bi * 3 + (1 if tftp else 0)) % len(bases)])
                     for t in sorted(fileh.edits(toks, ALPHABET, 1)):
                         c = emit("".join(t))
                         if c:
                             yield c
-                nrand = 60 if tier == "quick" else 1500
+                nrand = 60 if tier == "quick" else 400
                 for _ in range(nrand):
                     toks = list(tokenize(rng.choice(bases)))
                     for _e in range(rng.randrange(2, 5)):
